@@ -22,7 +22,10 @@ RULE = ('(a) every op / nn op / loss once or more with operands that are NumPy v
         'detach(), Tensor(t.data), Tensor(t.data.copy()), requires_grad switched off) used by a NEW graph over a fresh leaf that is then '
         'differentiated once or more (also inside retain_grads / no_grad): the gradient STATE of every tensor outside that graph — absent / its bytes / '
         'which buffer object — and its data are compared around every call (a constant ends the graph: its producers are outside); '
-        'every op is repeated and must be bit-identical; clone() and detach() of every tensor created (leaves with and without requires_grad, views, op results) must be a different object over storage that shares no memory with the source, and writing into it must leave the source alone; the values of all tensors are also compared with the model (in which data '
+        'every op is evaluated THREE times, with released blocks of the operands\' and results\' byte sizes refilled with a changing finite sentinel pattern before each evaluation (an entry the op leaves '
+        'unwritten shows the sentinel), and must be bit-identical (NaN payloads included); OPERANDS OUTSIDE THE DOMAIN: log of negative entries / of exactly 0 (at -1e-12), sqrt of negative entries, fractional powers of negative '
+        'entries, negative powers of zeros, x / 0 and 0 / 0, scalar / 0, inf / -inf / NaN entries into exp, log, sqrt, neg, clone, tanh, sigmoid, add, mul, and log / sqrt inside a small differentiated graph — float64 and float32, '
+        '4 to 400 elements (below and above the allocator\'s small-block cache); results and gradients are compared with the model entry by entry (NaN where the model says NaN, inf where it says inf); clone() and detach() of every tensor created (leaves with and without requires_grad, views, op results) must be a different object over storage that shares no memory with the source, and writing into it must leave the source alone; the values of all tensors are also compared with the model (in which data '
         'are immutable). Non-trivial: a program with an aliased operand or two backward calls.')
 EXHAUSTIVE = {'quick': False, 'thorough': False}
 ASSUMPTIONS = ['the documented in-place writers (optimizer step, initialisers, batch-norm running statistics, zeroing) are exercised by C08 / C15 / C13 / C04']
@@ -100,6 +103,27 @@ class Exec(tprog.Impl):
                 if x.data.tobytes() != before:
                     self.problems.append(f'writing into {how}() of tensor {k} changed the source')
 
+    def poison(self, sizes):
+        """allocate and release arrays of the given byte sizes (eight of each: NumPy's small-block cache holds seven per size, the C
+        allocator serves released blocks last-in-first-out) filled with a sentinel byte that changes from call to call: the bit
+        patterns 0x40.. - 0x7e.. are finite, positive float64 / float32 values, so an output entry that an op leaves UNWRITTEN
+        (np.empty + partial write, `where=` without a full `out=`) shows the sentinel of the call it was made in instead of the
+        value (NaN, inf, 0) the op is documented to give, and differs between two evaluations"""
+        self.pc = getattr(self, 'pc', 0) + 1
+        byte = 0x40 + (self.pc * 7) % 0x3F
+        for n in sorted(set(int(v) for v in sizes if v)):
+            blocks = [np.full(n, byte, dtype=np.uint8) for _ in range(8)]
+            del blocks
+        self.sentinel = byte
+
+    def unwritten(self, xs):
+        """does a result hold an element made of the current sentinel byte only (a block released before the call shows through)?"""
+        for x in xs:
+            if x is None or not x.data.size or x.data.dtype.itemsize < 4: continue
+            raw = np.frombuffer(x.data.tobytes(), dtype=np.uint8).reshape(-1, x.data.dtype.itemsize)
+            if bool((raw == self.sentinel).all(axis=1).any()): return True
+        return False
+
     def reach(self, r):
         seen, st = set(), [r]
         while st:
@@ -137,6 +161,8 @@ class Exec(tprog.Impl):
             tracked = bool(self.tm.gradient__) and any(self.ts[i] is not None and self.ts[i].requires_grad for i in ins if i < len(self.ts))
             before = self.snap()
             n0 = len(self.ts)
+            sizes = [self.ts[i].data.nbytes for i in ins if i < len(self.ts) and self.ts[i] is not None]
+            self.poison(sizes)
             out = super().run(line)
             after = self.snap()
             for key, b in before.items():
@@ -145,14 +171,21 @@ class Exec(tprog.Impl):
             for k in range(n0, len(self.ts)):
                 self.parents[k] = ins
                 self.tracked[k] = tracked
-            # repeat: bit-identical result, operands still untouched
+            # repeat (twice more, released blocks of the operands' and the results' sizes refilled with another sentinel before
+            # each): bit-identical result, operands still untouched
             n1 = len(self.ts)
             vals1 = [None if x is None else x.data.tobytes() for x in self.ts[n0:n1]]
-            super().run(line)
-            vals2 = [None if x is None else x.data.tobytes() for x in self.ts[n1:]]
-            if vals1 != vals2:
-                self.problems.append(f'{line[:80]} is not repeatable bit for bit')
-            del self.ts[n1:]
+            if self.unwritten(self.ts[n0:n1]): self.problems.append(f'{line[:80]} is not repeatable bit for bit: entries of the result were never written (they show the bytes of a block released before the call)')
+            sizes += [x.data.nbytes for x in self.ts[n0:n1] if x is not None]
+            for rep in range(2):
+                self.poison(sizes)
+                super().run(line)
+                vals2 = [None if x is None else x.data.tobytes() for x in self.ts[n1:]]
+                stale = self.unwritten(self.ts[n1:])
+                del self.ts[n1:]
+                if stale: self.problems.append(f'{line[:80]} is not repeatable bit for bit: entries of the result were never written (they show the bytes of a block released before the call)'); break
+                if vals1 != vals2:
+                    self.problems.append(f'{line[:80]} is not repeatable bit for bit'); break
             for k in range(n0, n1): self.independence(k)
             return out
         if t[1] == 'bw':
@@ -338,9 +371,67 @@ def op_case(rng, op):
     return {'kind': 'op', 'op': op, 'lines': lines, 'alias': alias}
 
 
+# ---- operands with entries OUTSIDE the domain of the op (result NaN / inf there) and non-finite operands --------------------------
+DOMAIN = ['log of negative entries', 'log at 0, -0 and -1e-12 (log of exactly 0)', 'sqrt of negative entries', 'fractional power of negative entries',
+          'negative power of zeros', 'division by zeros, 0/0', 'scalar / tensor with zeros', 'non-finite operand entries (inf, -inf, NaN)',
+          'log / sqrt inside a graph (product, sum, backward)']
+NONFINITE_OPS = ['exp', 'log', 'sqrt', 'neg', 'clone', 'tanh', 'sigmoid', 'add', 'mul']
+
+
+def domain_case(rng, which):
+    """one op (then a second look at it through a small graph) on an operand that holds entries outside the op's domain next to
+    ordinary ones; float64 / float32; sizes below and above the small-block cache of the allocator.  The executor evaluates the op
+    three times with released, sentinel-filled blocks of the operand / result sizes in between: bit-identical; the model gives the
+    class of every entry (NaN where it says NaN)"""
+    k = DOMAIN.index(which)
+    sh = rng.pick([(4,), (2, 3), (7,), (3, 1, 2), (40,), (300,), (20, 20)])
+    n = int(np.prod(sh))
+    dt = rng.pick(['f64', 'f64', 'f32'])
+    d = [abs(v) + 0.25 for v in gen_ops.vals(rng, sh)]
+    bad = rng.sample(range(n), rng.randint(1, max(1, n // 2)))
+    fb = common.fbits
+    lines = []
+    if k in (0, 2, 3, 8):
+        for i in bad: d[i] = -d[i] * rng.pick([1.0, 1.0, 3.0, 1e-3])
+    elif k == 1:
+        for i in bad: d[i] = rng.pick([0.0, -0.0, -1e-12, -1e-12, -2e-12, 1e-12])
+    elif k in (4, 5, 6):
+        for i in bad: d[i] = rng.pick([0.0, -0.0])
+    else:
+        for i in bad: d[i] = rng.pick([float('inf'), float('-inf'), float('nan'), float('nan')])
+    lines.append(gen_dag.leaf_line(sh, d, rng.chance(.7), dt))
+    nt = 1
+    if k in (0, 1): lines.append('t op log 0'); nt += 1
+    elif k == 2: lines.append('t op sqrt 0'); nt += 1
+    elif k == 3: lines.append(f"t op pow 0 {fb(rng.pick([0.5, 1.5, 1 / 3, -0.5, 2.5, 0.1]))}"); nt += 1
+    elif k == 4: lines.append(f"t op pow 0 {fb(rng.pick([-1.0, -2.0, -0.5, -3.0]))}"); nt += 1
+    elif k == 5:
+        num = gen_ops.vals(rng, sh)
+        for i in rng.sample(bad, max(1, len(bad) // 2)): num[i] = rng.pick([0.0, -0.0])
+        lines += [gen_dag.leaf_line(sh, num, True, dt), 't sop div 1 t0']; nt += 3
+    elif k == 6: lines.append(f"t sop rdiv 0 s{fb(rng.pick([2.0, -1.0, 0.0]))}"); nt += 3
+    elif k == 7:
+        op = rng.pick(NONFINITE_OPS)
+        if op in ('add', 'mul'):
+            o = gen_ops.vals(rng, sh)
+            for i in rng.sample(range(n), max(1, n // 3)): o[i] = rng.pick([0.0, float('inf'), float('-inf'), -0.0])
+            lines += [gen_dag.leaf_line(sh, o, True, dt), f't op {op} 0,1']; nt += 2
+        else:
+            lines.append(f't op {op} 0'); nt += 1
+    else:
+        lines += [gen_dag.leaf_line(sh, gen_ops.vals(rng, sh), True, dt), f't op {rng.pick(["log", "sqrt"])} 0', 't op mul 2,1', 't op sum 3 all 0',
+                  f't bw 4 {show_ints(())} {show_floats([1.0])}']; nt += 4
+    if k != 8 and rng.chance(.6):
+        lines.append(f"t bw {nt - 1} {show_ints(sh)} {show_floats(gen_dag.rand_data(rng, sh))}")
+    lines += [f't val {j}' for j in range(nt)] + [f't grad {j}' for j in range(nt)]
+    return {'kind': 'domain', 'op': which, 'lines': lines, 'alias': {}, 'domain': which, 'dt': dt, 'tol': 1e-9 if dt == 'f64' else 2e-5, 'nbytes': n * (8 if dt == 'f64' else 4)}
+
+
 def cases(rng, tier):
     out = []
     reps = 3 if tier == 'quick' else 60
+    for j in range(4 * len(DOMAIN) if tier == 'quick' else 150 * len(DOMAIN)):
+        out.append(domain_case(rng, DOMAIN[j % len(DOMAIN)]))
     for op in gen_ops.OPS_BASIC + gen_ops.OPS_NN:
         for _ in range(reps * (5 if op in STATEFUL else 1)):
             out.append(op_case(rng, op))
@@ -457,7 +548,7 @@ def impl(c):
 
 
 def compare(c, mo, io):
-    diffs = tprog.diff_program(c['lines'], mo, io)
+    diffs = tprog.diff_program(c['lines'], mo, io, c.get('tol', 1e-9))
     for p in c.get('_problems', [])[:2]:
         diffs.append(('bytes', 'unchanged', p))
     return diffs
@@ -471,6 +562,9 @@ def distribution(cases):
     d = {'aliased': sum(1 for c in cases if c['alias'])}
     for c in cases:
         d[c['kind']] = d.get(c['kind'], 0) + 1
+        if c['kind'] == 'domain':
+            for k in (f"operand outside the domain: {c['domain']}", f"operand outside the domain: {c['dt']}, {'<= 1024' if c['nbytes'] <= 1024 else '> 1024'} bytes"):
+                d[k] = d.get(k, 0) + 1
         for dv, b in c.get('plan', []):       # constants in a differentiated graph: how they were derived x the gradient state of the bystander they come from
             k = f'constant by {dv} <- {b}'
             d[k] = d.get(k, 0) + 1
